@@ -96,4 +96,3 @@ proof!(s_fanout_faults_n1_r2, 3, { drive::<1, 2>(true) });
 proof!(s_fanout_faults_n2_r2, 3, { drive::<2, 2>(true) });
 proof!(s_fanout_faults_n3_r2, 4, { drive::<3, 2>(true) });
 proof!(s_fanout_faults_n3_r3, 4, { drive::<3, 3>(true) });
-proof!(s_probe_ready, 4, { let mut fan: Fan = FanoutMany::new(); fan.insert(0, boxed(0)); let mut cx = cx(); let r = Pin::new(&mut fan).poll_ready(&mut cx); core::mem::forget(fan); });
